@@ -530,18 +530,23 @@ func digest(r *ParseResult) string {
 	for _, d := range r.Diags {
 		fmt.Fprintf(&b, "%d/%d/%s/%d:%d-%d:%d/%s;", d.Code, d.Level, d.File, d.L1, d.C1, d.L2, d.C2, d.Msg)
 	}
+	// the dump visits call arguments in map order: compare the set of resolutions, not the visiting order
+	calls := make([]string, 0, len(r.Calls))
 	for _, c := range r.Calls {
 		keys := make([]string, 0, len(c.Args))
 		for k := range c.Args {
 			keys = append(keys, k)
 		}
 		sort.Strings(keys)
-		fmt.Fprintf(&b, "%s/%s/%s/%d:%d", c.Kind, c.Name, c.Module, c.L1, c.C1)
+		var cb strings.Builder
+		fmt.Fprintf(&cb, "%s/%s/%s/%d:%d", c.Kind, c.Name, c.Module, c.L1, c.C1)
 		for _, k := range keys {
-			fmt.Fprintf(&b, "/%s=%s", k, c.Args[k])
+			fmt.Fprintf(&cb, "/%s=%s", k, c.Args[k])
 		}
-		b.WriteString(";")
+		calls = append(calls, cb.String())
 	}
+	sort.Strings(calls)
+	b.WriteString(strings.Join(calls, ";"))
 	return b.String()
 }
 
